@@ -42,10 +42,30 @@ def canonical(entry):
     return {"fn": entry["fn"], "code": entry["code"], "chain": sorted(c)}
 
 
+def merge_cells(entries):
+    """sites of one error code that differ only in the cells of one tuple match are one site on the union of the cells
+    (two arms with the same body merged into an or-pattern, or split again)"""
+    import re
+    groups, rest = {}, []
+    for e in entries:
+        cl = [x for x in e["chain"] if re.match(r".* in \{.*\}$", x)]
+        if len(cl) != 1:
+            rest.append(e)
+            continue
+        scrut, cells = cl[0].split(" in {", 1)
+        others = tuple(sorted(x for x in e["chain"] if x != cl[0]))
+        groups.setdefault((e["code"], others, scrut), {"fn": e["fn"], "cells": set()})
+        groups[(e["code"], others, scrut)]["cells"] |= set(c for c in cells[:-1].split("; ") if c)
+    for (code, others, scrut), g in groups.items():
+        rest.append({"fn": g["fn"], "code": code,
+                     "chain": sorted(list(others) + [f"{scrut} in {{" + "; ".join(sorted(g["cells"])) + "}"])})
+    return rest
+
+
 if __name__ == "__main__":
     import json, os, sys
     from . import core
-    inv = [canonical(e) for e in inventory()]
+    inv = merge_cells([canonical(e) for e in inventory()])
     json.dump({"comment": "Guard skeletons of every analyzer diagnostic, confirmed by reading against doc/reference.md "
                "on the tree with fix commits D1-D3,D8,D2 applied. Regenerate with `python3 -m vlib.guards` only after "
                "re-confirming each changed entry.", "sites": inv},
